@@ -616,6 +616,135 @@ def classify_trace(fam, inp, summ, var):
     return L.bucket(fam, inp, None, var, ["f"], ["f"], ["f"])[2]
 
 
+# =========================================================================== E: repository level
+def first_difference(a, b, path=()):
+    """Path of the first difference between two JSON values, or None."""
+    if type(a) is not type(b):
+        return path
+    if isinstance(a, dict):
+        for k in sorted(set(a) | set(b)):
+            if k not in a or k not in b:
+                return path + (k,)
+            r = first_difference(a[k], b[k], path + (k,))
+            if r is not None:
+                return r
+        return None
+    if isinstance(a, list):
+        if len(a) != len(b):
+            return path + (f"len {len(a)} vs {len(b)}",)
+        for i, (x, y) in enumerate(zip(a, b)):
+            r = first_difference(x, y, path + (i,))
+            if r is not None:
+                return r
+        return None
+    return None if a == b else path
+
+
+def git_pack(ctx, d, seed, rounds):
+    """A pack with real git deltas over the same file sets; -> True when written to d/git.pack"""
+    from .. import c15_repo as R
+    if not git_available():
+        return False
+    work = os.path.join(d, "gitwork")
+    os.makedirs(work)
+    env = dict(os.environ, GIT_CONFIG_NOSYSTEM="1", HOME=d, GIT_CONFIG_GLOBAL="/dev/null", GIT_AUTHOR_NAME="A", GIT_AUTHOR_EMAIL="a@e",
+               GIT_COMMITTER_NAME="C", GIT_COMMITTER_EMAIL="c@e", GIT_AUTHOR_DATE="1700000000 +0000", GIT_COMMITTER_DATE="1700000000 +0000")
+
+    def git(*a):
+        p = subprocess.run(["git", "-C", work, *a], capture_output=True, env=env)
+        if p.returncode != 0:
+            raise MachineryError(f"git {' '.join(a)} failed: {p.stderr[-400:]!r}")
+        return p.stdout
+    git("init", "-q")
+    for k, (v1, v2) in enumerate(R.make_worlds(seed, rounds)):
+        for v in (v1, v2):
+            for name in os.listdir(work):
+                if name != ".git":
+                    full = os.path.join(work, name)
+                    shutil.rmtree(full) if os.path.isdir(full) and not os.path.islink(full) else os.remove(full)
+            for pth, (content, mode) in v.items():
+                full = os.path.join(work, pth.decode())
+                os.makedirs(os.path.dirname(full), exist_ok=True)
+                if mode == 0o120000:
+                    os.symlink(content.decode(), full)
+                else:
+                    with open(full, "wb") as f:
+                        f.write(content)
+                    os.chmod(full, 0o755 if mode == 0o100755 else 0o644)
+            git("add", "-A")
+            git("commit", "-q", "--allow-empty", "-m", f"c{k}")
+    git("repack", "-a", "-d", "-f", "-q", "--window=10", "--depth=20")
+    pd = os.path.join(work, ".git", "objects", "pack")
+    packs = [f for f in os.listdir(pd) if f.endswith(".pack")]
+    if len(packs) != 1:
+        raise MachineryError(f"git repack left {packs}")
+    shutil.copy(os.path.join(pd, packs[0]), os.path.join(d, "git.pack"))
+    shutil.copy(os.path.join(pd, packs[0][:-5] + ".idx"), os.path.join(d, "git.idx"))
+    shutil.rmtree(work, ignore_errors=True)
+    return True
+
+
+def phase_repo(ctx, fnd):
+    d = ctx.tmpdir("repo")
+    rounds = ctx.pick(6, 40)
+    base = {"kind": "repo", "dir": d, "seed": ctx.seed, "rounds": rounds}
+    with cf.ThreadPoolExecutor(max_workers=3) as ex:
+        fg = ex.submit(git_pack, ctx, d, ctx.seed, min(rounds, 12))
+        f1 = {m: ex.submit(run_child, ctx, m, dict(base, step=1)) for m in MODES}
+        r1 = {}
+        for m in MODES:
+            with open(f1[m].result()) as f:
+                r1[m] = json.load(f)["result"]
+        has_git = fg.result()
+        packs = list(MODES) + (["git"] if has_git else [])
+        f2 = {m: ex.submit(run_child, ctx, m, dict(base, step=2, packs=packs)) for m in MODES}
+        r2 = {}
+        for m in MODES:
+            with open(f2[m].result()) as f:
+                r2[m] = json.load(f)["result"]
+    if not has_git:
+        ctx.assumptions.append("git not available: no pack with C git's deltas in the repository-level pass")
+    info = {}
+    n_ops = 0
+    for step, r in (("step1", r1), ("step2", r2)):
+        a, b = dict(r["py"]), dict(r["rs"])
+        info[step] = {"py": a.pop("info", {}), "rs": b.pop("info", {})}
+        for section in sorted(set(a) | set(b)):
+            n_ops += 1
+            ctx.count(2)
+            ctx.validated(2)
+            diff = first_difference(a.get(section), b.get(section))
+            if diff is None:
+                ctx.nontrivial(("repo", section))
+                continue
+            x, y = a.get(section), b.get(section)
+            for k in diff:
+                if isinstance(k, str) and k.startswith("len "):
+                    break
+                x = x[k] if x is not None and (k in x if isinstance(x, dict) else True) else None
+                y = y[k] if y is not None and (k in y if isinstance(y, dict) else True) else None
+            where = "/".join(str(k) for k in diff if not isinstance(k, int))
+            sig = f"dulwich:repository-level|{section}|{where}"
+            fnd.add(sig, f"repository-level result differs with and without the extensions: {section} at {list(diff)}: "
+                         f"pure Python {json.dumps(x)[:200]} / Rust {json.dumps(y)[:200]}",
+                    {"kind": "repo", "section": section, "path": list(diff), "py": x, "rs": y, "seed": ctx.seed, "rounds": rounds}, 0)
+        # the packs of both modes must give back what was put in (sanity of the scenario itself)
+    for m in MODES:
+        for name in MODES:
+            got = r2[m].get(f"read:{name}", {}).get("objects")
+            want = r1[name].get("pack_objects")
+            if got is not None and want is not None and got != want:
+                sig = f"dulwich:repository-level|pack-roundtrip|written-by={name},read-by={m}"
+                fnd.add(sig, f"objects read back by {m} from the pack written by {name} differ from what was written",
+                        {"kind": "repo", "section": "pack-roundtrip", "writer": name, "reader": m, "seed": ctx.seed, "rounds": rounds}, 0)
+    ctx.cov["repository_level"] = {"sections_compared": n_ops, "rounds": rounds, "packs_read": packs, "info": info,
+                                   "objects_in_own_pack": r1["py"].get("pack_written", {}).get("objects"),
+                                   "objects_in_git_pack": len(r2["py"].get("read:git", {}).get("objects", {})) if has_git else None}
+    ctx.sample({"repository_level": "tree ids / change lists with renames / objects read back from 3 packs / index lookups identical",
+                "trees_round0": r1["py"]["diff"][0]["trees"], "renames_default_round0": r1["py"]["diff"][0]["renames_default"][:3]}, limit=16)
+    shutil.rmtree(d, ignore_errors=True)
+
+
 # =========================================================================== run / replay
 def run(ctx):
     rustext.build()
@@ -630,8 +759,10 @@ def run(ctx):
     fnd = Findings(ctx)
     with cf.ThreadPoolExecutor(max_workers=2) as bg:
         ft = bg.submit(phase_traces, ctx, fnd)
+        fr = bg.submit(phase_repo, ctx, fnd)
         phase_enum(ctx, fnd)
         ft.result()
+        fr.result()
     fnd.flush()
     return ctx.finish(exhaustive=True)
 
